@@ -2485,9 +2485,14 @@ pub fn compile<I: BufRead, O: Write>(
                 }
             };
             eprintln!("{}", ex);
+            // The include site of the offending line, as for every other error
+            let included_in = mapped_lines
+                .iter()
+                .find(|m| std::rc::Rc::ptr_eq(&m.0, &filename) && m.1 == line)
+                .and_then(|m| m.2.as_ref().map(|i| (i.0.to_string(), i.1)));
             return Err(Error::Syntax {
                 filename: filename.to_string(),
-                included_in: None,
+                included_in,
                 line,
                 msg: e.variant.message().to_string(),
             });
